@@ -145,6 +145,16 @@ def check_s2d(l_set, l_old):
         bad.append(('s2d-mutates', 'old dict modified: %r' % lib_state(old)))
     if res is old:
         bad.append(('s2d-mutates', 'result is the old dict itself'))
+    # the same objects again after their lazily computed flags have been read: the reduction must not depend on it
+    try:
+        for x in list(S) + list(old.values()):
+            x.valid, x.parsable, x.valid
+        res2 = lib_parsing.settings_to_dict(S, old)
+        if lib_state(res2) != got:
+            bad.append(('s2d-after-flags', 'settings_to_dict(%r, %r) = %r, but %r once .valid / .parsable of the settings have been read'
+                        % ([str(x) for x in S], lib_state(old), got, lib_state(res2))))
+    except Exception as e:  # noqa
+        bad.append(('s2d-raises', 'after reading the flags: %s: %s' % (type(e).__name__, e)))
     return bad, False
 
 
